@@ -114,6 +114,8 @@ class E(opscalar.ScalarOp):
         ]
         if np.any(np.asarray(tau) < 0):
             raise ValueError("Cannot have negative time")
+        if np.any(np.asarray(T1) < 0) or np.any(np.asarray(T2) < 0):
+            raise ValueError("Cannot have negative relaxation time")
 
         if not name:  # default name
             name = common.repr_operator(
